@@ -53,3 +53,15 @@ claim('C06', 'exploration',
       'CIF_FINISHED update/remove may be refused or act on the last delivered packet.',
       'runtime monitoring: bounded-exhaustive script enumeration against a state-machine oracle under ASan/UBSan',
       'DESIGN.md section 4, C06')
+
+claim('C07', 'exploration',
+      'Generated values (strings around the 256/512/4096-unit and 512-byte serialisation boundaries and up to 70 000 '
+      'units, every number spelling, unknown / n.a., lists and tables to depth 8 (thorough 200) and width 300, awkward '
+      'table keys) are stored through set_value (scalar and looped), add_item, add_packet, an iterator update and the '
+      'parser (document written by the independent writer) and read back through get_value (fresh / into an existing '
+      'object), packet iteration and the cif_walk item callback; kind, text, quoted flag, derived doubles (bit patterns), '
+      'order, key spelling and members are compared at every depth, before and after the source object is overwritten '
+      'and freed.',
+      'Held on the seeded values generated; depth bounded by the C stack.  Correctness of the derived doubles is C10\'s.',
+      'runtime monitoring: differential store/read-back over five storage paths and three observers under ASan/UBSan with ledger',
+      'DESIGN.md section 4, C07')
